@@ -864,6 +864,16 @@ func (m *Monitors) onCall(c *Call) {
 	}
 	switch {
 	case c.Kind == KPod && c.Verb == "create":
+		// C09: a Job that ended in AdmissionError is not retried - no further task create is even attempted
+		if m.w.current != nil && m.w.current.Ctl.Name == "job" {
+			for _, o := range m.w.API.peek(KJob) {
+				j := o.(*execution.Job)
+				if j.Namespace+"/"+j.Name == fmt.Sprint(m.w.current.Item) && j.Status.Phase == execution.JobAdmissionError && strings.HasPrefix(c.Name, j.Name+"-") {
+					m.Evals["C09_retry_after_admission_error"]++
+					m.fail("C09", "task-create-after-admission-error", "the job controller attempts to create task %s although Job %s has ended in AdmissionError (%q): the refusal is retried", c.Name, j.Name, j.Annotations[AnnAdmissionErr])
+				}
+			}
+		}
 		// a create that will hit an object not belonging to the reconciled Job
 		if _, ok := m.w.API.peek(KPod)[key(c.NS, c.Name)]; ok && m.w.current != nil {
 			rec := m.pods[c.NS+"/"+c.Name]
